@@ -47,6 +47,13 @@ Ty == [
   int   |-> Sc(4),
   uint  |-> Sc(4),
   ptr   |-> [kind |-> "ptr", size |-> 8, align |-> 8],
+  float  |-> [kind |-> "flt", size |-> 4, align |-> 4],
+  double |-> [kind |-> "flt", size |-> 8, align |-> 8],
+  AD2   |-> Arr("double", 2, 16, 8),
+  \* struct SD { float f; struct DI { double d; float g; } in; char c; }   union UD { double d; int i; float f; }
+  DI    |-> St("struct", 16, 8, <<M("d", "double", 0), M("g", "float", 8)>>),
+  SD    |-> St("struct", 32, 8, <<M("f", "float", 0), M("in", "DI", 8), M("c", "char", 24)>>),
+  UD    |-> St("union", 8, 8, <<M("d", "double", 0), M("i", "int", 0), M("f", "float", 0)>>),
   AI3   |-> Arr("int", 3, 12, 4),
   AIX   |-> Arr("int", 0, 0, 4),          \* int []
   AW2   |-> Arr("int", 2, 8, 4),          \* wchar_t [2]: L"pq" fills it exactly, the NUL is dropped
@@ -89,7 +96,7 @@ Ty == [
 TypeIds == DOMAIN Ty
 
 Kind(t) == Ty[t].kind
-IsScalar(t) == Kind(t) \in {"int", "ptr"}
+IsScalar(t) == Kind(t) \in {"int", "ptr", "flt"}
 IsSU(t) == Kind(t) \in {"struct", "union"}
 IsIncT(t) == Kind(t) = "arr" /\ Ty[t].n = 0
 \* arrays a string literal may initialise: char[] with "...", int[] (= wchar_t[]) with L"...", unsigned short[]
@@ -116,6 +123,27 @@ AddrTab == <<AddrC("g", "g", 0, <<>>),                       \* char g[8];
              AddrC("(char *)&ga[2]", "ga", 8, <<>>),         \* int ga[4];
              AddrC("&g[5] - 1", "g", 4, <<>>)>>
 StrAddr(id) == AddrC("", "", 0, Append(StrData(id), 0))    \* a string literal initialising a pointer
+\* floating constants: C text and the bytes (little endian IEEE-754) of the value the constant expression has.
+\* Half of the doubles need 17 significant decimal digits to survive printing (what dataitem's "%.17g" provides);
+\* the tables are audited against gcc on every run like every other expected byte.
+FD(c, bs) == [c |-> c, bs |-> bs]
+DblTab == <<FD("0.1 + 0.2", <<52, 51, 51, 51, 51, 51, 211, 63>>),
+            FD("1.1 * 1.1", <<93, 143, 194, 245, 40, 92, 243, 63>>),
+            FD("1.7976931348623157e308", <<255, 255, 255, 255, 255, 255, 239, 127>>),
+            FD("2.2250738585072014e-308", <<0, 0, 0, 0, 0, 0, 16, 0>>),
+            FD("4.9406564584124654e-324", <<1, 0, 0, 0, 0, 0, 0, 0>>),
+            FD("9007199254740991.0", <<255, 255, 255, 255, 255, 255, 63, 67>>),
+            FD("-0.1 * 3", <<52, 51, 51, 51, 51, 51, 211, 191>>),
+            FD("1 / 3.0", <<85, 85, 85, 85, 85, 85, 213, 63>>)>>
+FltTab == <<FD("0.1f", <<205, 204, 204, 61>>),
+            FD("16777215.0f", <<255, 255, 127, 75>>),
+            FD("3.40282347e38f", <<255, 255, 127, 127>>),
+            FD("1.17549435e-38f", <<0, 0, 128, 0>>),
+            FD("1.40129846e-45f", <<1, 0, 0, 0>>),
+            FD("0.3f", <<154, 153, 153, 62>>),
+            FD("-2.5f", <<0, 0, 32, 192>>),
+            FD("0.33333334f", <<171, 170, 170, 62>>)>>
+FConst(t, k) == IF t = "double" THEN DblTab[k] ELSE FltTab[k]
 \* struct P valued expression used by "g" tokens: member values of the source object
 AggX == 20818          \* 0x5152
 AggY == 1398031702     \* 0x53545556
@@ -211,6 +239,7 @@ LeafWrite(ts, i, pi, n) ==
       t  == pi.ty
   IN CASE tk.k = "v" /\ Kind(t) = "int" -> <<W(pi.lo, pi.w, "int", Val2(i, VOrd(ts, i)), <<>>, pi.un, i, t)>>
        [] tk.k = "v" /\ Kind(t) = "ptr" -> <<W(pi.lo, 64, "addr", AddrIx2(i, VOrd(ts, i)), <<>>, pi.un, i, t)>>
+       [] tk.k = "v" /\ Kind(t) = "flt" -> <<W(pi.lo, pi.w, "flt", AddrIx2(i, VOrd(ts, i)), FConst(t, AddrIx2(i, VOrd(ts, i))).bs, pi.un, i, t)>>
        [] tk.k = "s" /\ Kind(t) = "ptr" -> <<W(pi.lo, 64, "saddr", tk.n, <<>>, pi.un, i, t)>>
        [] tk.k = "s" /\ StrElemW(t) > 0 /\ Len(StrData(tk.n)) <= n ->
             <<W(pi.lo, n * StrElemW(t) * 8, "bytes", 0, StrBytes(tk.n, n, StrElemW(t)), pi.un, i, t)>>
@@ -294,7 +323,7 @@ AggBit(i) == IF i < 16 THEN VBit(AggX, i) ELSE IF i < 32 THEN 2 ELSE VBit(AggY, 
 Paint(img, w) ==
   LET c == Clear(img, w.lo, w.n) IN
   CASE w.k = "int"   -> [c EXCEPT !.bit = [b \in DOMAIN c.bit |-> IF b >= w.lo /\ b < w.lo + w.n THEN VBit(w.v, b - w.lo) ELSE c.bit[b]]]
-    [] w.k = "bytes" -> [c EXCEPT !.bit = [b \in DOMAIN c.bit |-> IF b >= w.lo /\ b < w.lo + w.n
+    [] w.k \in {"bytes", "flt"} -> [c EXCEPT !.bit = [b \in DOMAIN c.bit |-> IF b >= w.lo /\ b < w.lo + w.n
                                                                    THEN (w.bs[((b - w.lo) \div 8) + 1] \div (2 ^ ((b - w.lo) % 8))) % 2 ELSE c.bit[b]]]
     [] w.k = "agg"   -> [c EXCEPT !.bit = [b \in DOMAIN c.bit |-> IF b >= w.lo /\ b < w.lo + w.n THEN AggBit(b - w.lo) ELSE c.bit[b]]]
     [] w.k \in {"addr", "saddr"} -> [c EXCEPT !.rel = @ \cup {[off |-> w.lo \div 8, k |-> w.k, v |-> w.v]}]
@@ -609,6 +638,7 @@ BadItem == /\ pc = "item" /\ CurTok.k \in {"}", "m", "i"}
 ExprOf(tk, i, t) ==
   CASE tk.k = "v" /\ Kind(t) = "int" -> [k |-> "int", v |-> Val2(i, VOrd(toks, i)), ty |-> t, d |-> <<>>, w |-> 0]
     [] tk.k = "v" /\ Kind(t) = "ptr" -> [k |-> "addr", v |-> AddrIx2(i, VOrd(toks, i)), ty |-> t, d |-> <<>>, w |-> 0]
+    [] tk.k = "v" /\ Kind(t) = "flt" -> [k |-> "flt", v |-> AddrIx2(i, VOrd(toks, i)), ty |-> t, d |-> FConst(t, AddrIx2(i, VOrd(toks, i))).bs, w |-> 0]
     [] tk.k = "s" /\ Kind(t) = "ptr" -> [k |-> "saddr", v |-> tk.n, ty |-> t, d |-> <<>>, w |-> 0]
     [] tk.k = "s" /\ StrElemW(t) > 0 -> [k |-> "str", v |-> tk.n, ty |-> t, d |-> Append(StrData(tk.n), 0), w |-> StrElemW(t)]
     [] tk.k = "g" /\ t = "P"         -> [k |-> "agg", v |-> 0, ty |-> t, d |-> <<>>, w |-> 0]
@@ -686,6 +716,7 @@ Zeros(n) == [k \in 1..n |-> 0]
 ItemBytes(x, size) ==
   CASE x.k = "int" -> LEBytes(x.v, Ty[x.ty].size)
     [] x.k \in {"addr", "saddr"} -> Zeros(8)
+    [] x.k = "flt" -> x.d                      \* printed as d_%.17g / s_%.17g: must denote exactly the constant's value
     [] x.k = "str" -> LET n == Min2(Len(x.d), size \div x.w)
                       IN Flat([k \in 1..n |-> LEBytes(x.d[k], x.w)]) \o Zeros(size - n * x.w)
     [] OTHER -> <<>>
@@ -784,6 +815,7 @@ FuncLoop(l, i, st, align) ==
                    m2 == CASE isbf -> StoreBits(m1, e)
                            [] e.x.k = "int" -> StoreBytes(m1, e.s, LEBytes(e.x.v, Ty[e.x.ty].size))
                            [] e.x.k = "agg" -> StoreBytes(m1, e.s, AggBytes)
+                           [] e.x.k = "flt" -> StoreBytes(m1, e.s, e.x.d)
                            [] OTHER -> StoreBytes(m1, e.s, Zeros(8))
                    r1 == IF e.x.k \in {"addr", "saddr"} THEN r0 \cup {[off |-> e.s, k |-> e.x.k, v |-> e.x.v]} ELSE r0
                IN FuncLoop(l, i + 1, [mem |-> m2, rel |-> r1, off |-> e.e, max |-> Max2(st.max, e.e), fired |-> fd0], align)
@@ -871,6 +903,7 @@ ExprC(w) == CASE w.k = "int" -> ToString(w.v)
               [] w.k = "addr" -> AddrTab[w.v].c
               [] w.k = "saddr" -> StrC(w.v)
               [] w.k = "bytes" -> (IF StrElemW(w.lt) = 4 THEN "L" ELSE IF StrElemW(w.lt) = 2 THEN "u" ELSE "") \o StrC(toks[w.tp].n)
+              [] w.k = "flt" -> FConst(w.lt, w.v).c
               [] w.k = "agg" -> "pv"
               [] OTHER -> ""
 \* relocation as the harness sees it: [offset, symbol, addend, content of an unnamed target]
